@@ -9,4 +9,7 @@ cd spec
 for f in *.tla; do
   tla-sany "$f" > ../work/sany.out 2>&1 || { cat ../work/sany.out; echo "SANY failed on $f"; exit 1; }
 done
+
+cd ..
+python3 tools/warm.py
 echo "setup ok"
